@@ -92,6 +92,15 @@ Theorem C04_carry :
 Proof. exact carry. Qed.
 Print Assumptions C04_carry.
 
+(* the carried claims are re-anchored by the pre-commit checkpoint: it is never skipped while INITIAL
+   names a file, whatever (human) checkpoints the working log already holds (fact regenerated from
+   checkpoint.rs: precommit_runs_on_any_initial) *)
+Theorem C04_carry_precommit_runs :
+  forall no_ai im ini touched other f,
+  In f ini -> precommit_skipped no_ai im ini touched other = false.
+Proof. exact precommit_runs_with_initial. Qed.
+Print Assumptions C04_carry_precommit_runs.
+
 (* why the pathspec union matters: a file outside the pathspecs loses every claim *)
 Theorem C04_carry_needs_pathspec :
   forall cps ini_files keep f attrs K U H,
